@@ -46,6 +46,8 @@ def key_of(dbx, d, payload):
         if not f.pk:
             continue
         if e["kind"] == "str":
+            if e.get("undecodable"):
+                return None          # text that is not valid in its announced encoding: the key has no database value
             parts.append(("s", e["value"]))
         elif "raw_int" in e:
             parts.append(("i", e["raw_int"]))
@@ -88,6 +90,12 @@ def run_shard(spec, acc):
     decB = claimed_decoder(sources, preferred_units={PhysicalQuantities.TEMPERATURE: "C", PhysicalQuantities.ANGLE: "deg",
                                                      PhysicalQuantities.SPEED: "kts", PhysicalQuantities.PRESSURE: "bar"})
     dec_off = NMEA2000Decoder()
+    # a decoder that also dumps what it returns (the hash must not depend on it)
+    import os
+    import shutil
+    from .. import runner
+    dump_dir = os.path.join(runner.SCRATCH, f"c17-dump-{os.getpid()}")
+    decC = claimed_decoder(sources, dump_to_file=os.path.join(dump_dir, "dump.jsonl"), dump_pgns=[d.pgn for k, d in enumerate(defs) if k % 2 == 0])
     by_key = {}
     by_hash = {}
     cross = []
@@ -109,6 +117,14 @@ def run_shard(spec, acc):
             acc.violation("hash-missing-with-mapping-on", f"{d.id}: message returned without hash although network mapping is on", w)
             return None
         acc.count("hashes_grouped")
+        h_before = m.hash
+        try:
+            m.to_json()
+        except Exception:  # noqa: BLE001 - C15's business
+            pass
+        if m.hash != h_before:
+            acc.violation("hash-changes-when-message-is-serialised", f"{d.id}: hash {h_before!r} became {m.hash!r} after to_json()", w)
+            return None
         prev = by_key.setdefault(k, (m.hash, w))
         if prev[0] != m.hash:
             acc.violation("equal-key-different-hash", f"{d.id}: same id and key raws {k[1]} but hashes differ ({tag} vs {prev[1]['variant']})",
@@ -147,6 +163,7 @@ def run_shard(spec, acc):
             observe(decA, d, p0, nb, src=2, dst=255, prio=6, tag="other-source-priority")
             observe(decA, d, p0, nb, src=77, dst=17, prio=0, tag="other-destination")
             observe(decB, d, p0, nb, tag="unit-preferences")
+            observe(decC, d, p0, nb, tag="dumping-decoder")
             observe(claimed_decoder([1]), d, p0, nb, tag="fresh-decoder") if fam == 0 else None
             # one key field changed: must land in another class
             for f in keys:
@@ -231,6 +248,8 @@ def run_shard(spec, acc):
                 acc.violation("hash-differs-between-processes", f"{d.id}: {h0} here, {h} in a process with another PYTHONHASHSEED",
                               {"definition": d.id, "payload_hex": p.to_bytes(nb, "little").hex()})
     acc.sample({"definitions": len(defs), "classes": len(by_key)})
+    decC.close()
+    shutil.rmtree(dump_dir, ignore_errors=True)
 
 
 def replay(w, acc):
